@@ -765,6 +765,11 @@ SKIP_RECORD_PARSE:
             {
                 ssl->expectedEpoch[0] = ssl->rec.epoch[0];
                 ssl->expectedEpoch[1] = ssl->rec.epoch[1];
+                /* Sequence numbers restart with the epoch: the anti-replay
+                   window of the previous epoch must not be applied to the
+                   records that follow on this one */
+                ssl->dtlsBitmap = 0;
+                Memset(ssl->lastRsn, 0x0, sizeof(ssl->lastRsn));
             }
 
             /* Yet another corner case where we are receiving application data
